@@ -154,3 +154,11 @@ def rule_awaits(ctx):
 
 
 RULES.append(("C02.h", "await inventory: only futures whose completion rule is covered are polled on the delivery path", rule_awaits))
+
+
+def rule_mustpass(ctx):
+    from . import mustpass
+    mustpass.check(ctx, ['output-send-broadcasts', 'send-completes-after-wait'])
+
+
+RULES.append(("C02.i", "must-pass-through: no path around the effects this property rests on (added fast paths / early returns)", rule_mustpass))
